@@ -29,7 +29,7 @@ def scenarios(tier, seed):
             "layout": "shuffled", "n0": [16, 16, 8], "ncombos": 5 if tier == "quick" else 12} for i in range(2 if tier == "quick" else 5)]
     # 24 fields and a box starting at index 24: the field count also occurs inside the box indices of a FAB header
     out.append({"kind": "chef", "seed": seed * 1000 + 1650, "thermo": True, "nlevels": 2, "nfiles": 2, "layout": "shuffled",
-                "n0": [32, 8, 8], "box": 8, "ncombos": 7 if tier == "quick" else 20})
+                "n0": [32, 8, 8], "box": 8, "ncombos": 8 if tier == "quick" else 20})
     return out
 
 
